@@ -112,6 +112,7 @@ inductive Out
   | emit (cid : Nat) (v6 : Bool) (data : Bytes) (dest : Dest)               -- transport_ipvX.sendto(data, dest)
   | tunnel (cid : Nat) (hopIp : Bytes) (hopPort : Nat) (data : Bytes) (src : Dest)   -- overlay.send_data(hop, cid, null, src, data)
   | resolve (cid : Nat) (host : Bytes) (port : Nat) (data : Bytes)          -- getaddrinfo started for this packet
+  | reenter (cid : Nat)                                                     -- on_packet_from_circuit handed a DATA cell back to on_data (the model does not follow it)
   | loc (cid : Nat) (how : Nat)                                             -- data for an own circuit: 0 own overlay, 1 other overlay, 2 raw
   deriving Repr, DecidableEq
 
@@ -313,7 +314,10 @@ def condOnData (e : DEnv) (st : St) : Cond → Bool
     `on_data`/`exit_data` and is a local delivery (`loc`). -/
 def actOnData (e : DEnv) (st : St) : Act → St × List Out
   | .exitData => exitData st e.srcIp e.cid e.dest e.payload
-  | .deliverOwn => (st, [.loc e.cid 0])
+  | .deliverOwn =>
+    -- re-dispatch by data[22]: DataPayload's handler is on_data itself (a re-entry with the sender-chosen origin as
+    -- source, which this model does not follow: it is made visible as `reenter`); any other handler is a local delivery
+    if e.payload[22]? == some (UInt8.ofNat Gen.DATA_MSG_ID) then (st, [.reenter e.cid]) else (st, [.loc e.cid 0])
   | .deliverOther => (st, [.loc e.cid 1])
   | .deliverRaw => (st, [.loc e.cid 2])
   | _ => (st, [])
@@ -332,6 +336,12 @@ def interpOnData (e : DEnv) : Prog → St → St × List Out
 def joinSock (socks : List Sock) (ip : Bytes) (port : Nat) (cid : Nat) : List Sock :=
   socks.filter (fun s => s.cid != cid) ++ [{ cid := cid, hopIp := ip, hopPort := port }]
 
+/-- `on_create` → `join_circuit`: a CREATE is ignored when no peer flag is configured or when the circuit id is already in
+    use as an own circuit or an exit socket (relays and the pending-request guard are not modelled) -/
+def joinStep (st : St) (ip : Bytes) (port : Nat) (cid : Nat) : St :=
+  if st.flags.isEmpty || st.circs.any (fun c => c.cid == cid) || st.socks.any (fun s => s.cid == cid) then st
+  else { st with socks := joinSock st.socks ip port cid }
+
 def step (st : St) (ev : Ev) : St × List Out :=
   match ev with
   | .setFlags fl => ({ st with flags := fl }, [])
@@ -340,7 +350,7 @@ def step (st : St) (ev : Ev) : St × List Out :=
   | .open6 cid => viaSock st cid ev
   | .resolved cid _ _ => viaSock st cid ev
   | .outside cid _ _ _ _ => viaSock st cid ev
-  | .join ip port cid => ({ st with socks := joinSock st.socks ip port cid }, [])
+  | .join ip port cid => (joinStep st ip port cid, [])
 
 /-- run a history; outputs are tagged with the peer_flags that were configured when they were produced -/
 def run : St → List Ev → St × List (List Nat × Out)
